@@ -122,6 +122,16 @@ def run_case(case, ctx):
         ctx.reject('input_modified')
         return
     out = np.asarray(out)
+    # a result the caller holds must not change when the library differentiates something else of the same size
+    out_then = out.copy()
+    try:
+        fd_derivative(np.asarray(fx, dtype=float)[::-1].copy() * 1.5, np.asarray(x, dtype=float) + 0.25, n=n, m=m)
+    except Exception:
+        pass
+    ctx.count('earlier_result_checked_after_a_later_call')
+    if out.tobytes() != out_then.tobytes():
+        ctx.reject('returned_array_changed_by_a_later_call', observed=out[:4], expected=out_then[:4])
+        return
     if out.shape != (length,):
         ctx.reject('length', observed=list(out.shape), expected=[length])
         return
